@@ -4,6 +4,9 @@ SPEC = {
         {"name": "auth", "pkg": "./internal/home/", "run": "^TestVerifC12$",
          "harness": ["home/c12_*.go"], "synctest": True,
          "timeout_quick": 600, "timeout_thorough": 3000},
+        {"name": "logoutrace", "pkg": "./internal/home/", "run": "^TestVerifC12LogoutRace$",
+         "harness": ["home/c12_logoutrace_test.go"], "race": True,
+         "timeout_quick": 600, "timeout_thorough": 1800},
     ],
 }
 
